@@ -13,6 +13,7 @@ CONSTANTS
   Kinds = {"s", "q", "m"}
   LeafKinds = {"s", "q", "m"}
   KeyFillers = {"k", "M", "V"}
+  ValFillers = {"x"}
   MustChain = TRUE
   ConvFail = "err"
 INVARIANT UnsafeInert
